@@ -658,6 +658,11 @@ def a_dtype(I, a):
     return {"int": np.dtype("int64"), "real": np.dtype("float64"), "bool": np.dtype("bool")}.get(a.dtype, Opaque("dtype"))
 
 
+import h5py as _h5py  # noqa: E402
+
+MODELS[id(_h5py.special_dtype)] = (_h5py.special_dtype, lambda I, args, kw: Opaque("special_dtype"))
+
+
 @method(Arr, "flatten", "ravel")
 def a_flatten(I, a, *args, **kw):
     if a.ndim == 1:
@@ -693,6 +698,8 @@ def a_tolist(I, a):
 
 @method(Arr, "astype")
 def a_astype(I, a, dtype, **kw):
+    if a.fields is not None:
+        return a_copy(I, a)  # structured table cast to its own dtype
     tgt = dtype_kind(dtype)
     if tgt == a.dtype:
         return Arr(a.shape, fz(a), a.dtype, a.tag)
@@ -1318,10 +1325,63 @@ def np_meshgrid(I, args, kw):
     raise Unsupported("meshgrid arity")
 
 
+class RecRow:
+    """A single structured record (np.core.records.fromarrays of scalars)."""
+
+    def __init__(self, fields):
+        self.fields = fields  # name -> scalar value
+
+
+def _fromarrays(I, args, kw):
+    theory.use("T-rec.fromarrays(scalars, dtype=[(name, type)...]) builds the record it is given")
+    vals = args[0]
+    dt = kw.get("dtype", args[1] if len(args) > 1 else None)
+    names = None
+    if isinstance(dt, PList):
+        names = [d[0] for d in dt.items]
+    elif isinstance(dt, PDict) and "names" in dt.items:
+        names = list(dt.items["names"].items) if isinstance(dt.items["names"], PList) else None
+    vals = list(vals) if isinstance(vals, tuple) else (vals.items if isinstance(vals, PList) else None)
+    if names is None or vals is None or len(names) != len(vals):
+        raise Unsupported("fromarrays shape")
+    if all(isinstance(v, (int, float, bool, SV, bytes, str)) for v in vals):
+        return RecRow(dict(zip(names, vals)))
+    raise Unsupported("fromarrays of arrays")
+
+
+MODELS[id(np.core.records.fromarrays)] = (np.core.records.fromarrays, _fromarrays)
+
+
+def rec_concat(I, parts):
+    """hstack of structured tables / single records (row order = argument order)."""
+    tables = []
+    for p in parts:
+        if isinstance(p, RecRow):
+            cols = {}
+            for name, v in p.fields.items():
+                k = dk(kind_of(v))
+                cols[name] = Arr((1,), lambda i, _v=v, _k=k: zk(_v, _k if _k in ("int", "real") else None), k if k != "str" else "str", "row." + name)
+            tables.append(Arr((1,), lambda i: z3.IntVal(0), "rec", "row", fields=cols))
+        elif isinstance(p, Arr) and p.fields is not None:
+            tables.append(p)
+        else:
+            raise Unsupported("hstack of records with non-records")
+    names = list(tables[0].fields)
+    out_cols = {}
+    for name in names:
+        cols = [t.fields[name] for t in tables]
+        out_cols[name] = np_hstack(I, [PList(cols)], {})
+    total = out_cols[names[0]].shape[0]
+    return Arr((total,), lambda i: z3.IntVal(0), "rec", "hstack", fields=out_cols)
+
+
 @model(np.hstack)
 def np_hstack(I, args, kw):
     seq = args[0]
-    items = [as_arr(I, x) for x in (seq.items if isinstance(seq, PList) else seq)]
+    parts = seq.items if isinstance(seq, PList) else list(seq)
+    if any(isinstance(x, RecRow) or (isinstance(x, Arr) and x.fields is not None) for x in parts):
+        return rec_concat(I, parts)
+    items = [as_arr(I, x) for x in parts]
     if all(x.ndim == 1 for x in items):
         offs = [0]
         for x in items:
